@@ -52,8 +52,11 @@ const KEYS: [&str; 25] = [
     "duration",
 ];
 
-fn mk_style(key: &str, obs: &Arc<StdMutex<ObsShared>>, aux: &Arc<StdMutex<ObsShared>>) -> ProgressStyle {
-    ProgressStyle::with_template(&format!("<{{{key}}}>{{obs}}"))
+fn mk_style(key: &str, obs: &Arc<StdMutex<ObsShared>>, aux: &Arc<StdMutex<ObsShared>>, two_line: bool) -> ProgressStyle {
+    // (optionally below a line that is filled up by the message: the key under test is then the
+    // first placeholder of a later template line)
+    let t = if two_line { format!("{{wide_msg}}\n<{{{key}}}>{{obs}}") } else { format!("<{{{key}}}>{{obs}}") };
+    ProgressStyle::with_template(&t)
         .unwrap()
         .tick_strings(&["0", "1", "2", "3", "4", "5", "6", "7", "8", "9", "F"])
         .with_key(
@@ -85,7 +88,7 @@ fn exec(sc: &Scenario) -> Report {
             .with_finish(finish_kind(sc.c("on_finish"), "fin"));
         let obs = Arc::new(StdMutex::new(ObsShared::default()));
         let aux = Arc::new(StdMutex::new(ObsShared::default()));
-        pb.set_style(mk_style("pos", &obs, &aux));
+        pb.set_style(mk_style("pos", &obs, &aux, false));
         let mut ticks: u64 = 0;
         let mut resets: u64 = 0;
         let mut finished = false;
@@ -187,7 +190,7 @@ fn exec(sc: &Scenario) -> Report {
         for key in KEYS {
             let ks = key.to_string();
             let drawn = call(|| {
-                pb.set_style(mk_style(&ks, &obs, &aux));
+                pb.set_style(mk_style(&ks, &obs, &aux, sc.c("two_line") == 1));
                 pb.force_draw();
             });
             if let Err(p) = drawn {
@@ -273,9 +276,9 @@ fn exec(sc: &Scenario) -> Report {
                     Some(0) => 1.0,
                     Some(l) => (pos as f64 / l as f64).clamp(0.0, 1.0),
                 };
-                let v: f64 = match shown.trim().parse() {
-                    Ok(v) => v,
-                    Err(_) => {
+                let v: f64 = match shown.trim().parse::<f64>() {
+                    Ok(v) if v.is_finite() => v,
+                    _ => {
                         r.violate("C11.key_value", format!("{{{key}}} rendered {shown:?}, not a number"));
                         return r;
                     }
@@ -291,6 +294,31 @@ fn exec(sc: &Scenario) -> Report {
             }
             r.probe("keys_compared");
         }
+        // custom keys are ticked together with the bar also when the ticks come from a steady ticker
+        if sc.c("ticker_phase") == 1 && !pb.is_finished() && r.violation.is_none() {
+            let d_ns: u64 = 20_000_000;
+            let k: u64 = 6;
+            let (t0, a0, f0) = (obs.lock().unwrap().ticks, aux.lock().unwrap().ticks, term.flushes());
+            let ph = call(|| {
+                pb.enable_steady_tick(std::time::Duration::from_nanos(d_ns));
+                sched::sleep(k * d_ns);
+                pb.disable_steady_tick();
+            });
+            if let Err(p) = ph {
+                r.violate("C11.no_panic", format!("the steady-tick phase panicked: {p}"));
+                return r;
+            }
+            let frames = term.flushes() - f0;
+            let (dt, da) = (obs.lock().unwrap().ticks - t0, aux.lock().unwrap().ticks - a0);
+            if frames >= 2 && (dt + 1 < frames || da + 1 < frames) {
+                r.violate(
+                    "C11.tracker_tick",
+                    format!("a steady ticker painted {frames} frames of the bar, but the custom keys' trackers were ticked only {dt} / {da} times meanwhile"),
+                );
+                return r;
+            }
+            r.probe("steady_tick_phase");
+        }
         r.nontrivial = ops.len() >= 2;
         drop(pb);
         r
@@ -303,7 +331,7 @@ impl Check for C11 {
         "C11"
     }
     fn rule_text(&self) -> String {
-        "A random history (inc/set_position/update with positions and lengths including 0, len < pos, unknown length, u64::MAX and neighbours; ticks; messages and prefixes; reset/reset_eta/reset_elapsed; every finish variant; clock gaps from 1 ms to hours, >= 1 ms between position calls so that the tick count is determined) is followed by a frozen virtual instant at which, for each of 25 documented keys (spinner, prefix, msg, pos, human_pos, len, human_len, percent, percent_precise, bytes family, elapsed*, per_sec, *_bytes_per_sec, eta*, duration*), a template <{key}> is set, a forced draw is captured from the simulated terminal and compared with the getter value pushed through the public formatter the docs name (percent: within rounding of 100*pos/len clamped; spinner: style.get_tick_str(tick count) / final tick string once finished; missing length renders as the position). The ProgressState handed to a custom key at each draw must agree with the getters, the tracker must be ticked with the bar and reset exactly as often as the bar. Non-trivial: history of >= 2 calls. Distinct = distinct scenario hash.".into()
+        "A random history (inc/set_position/update with positions and lengths including 0, len < pos, unknown length, u64::MAX and neighbours; ticks; messages and prefixes; reset/reset_eta/reset_elapsed; every finish variant; clock gaps from 1 ms to hours, >= 1 ms between position calls so that the tick count is determined) is followed by a frozen virtual instant at which, for each of 25 documented keys (spinner, prefix, msg, pos, human_pos, len, human_len, percent, percent_precise, bytes family, elapsed*, per_sec, *_bytes_per_sec, eta*, duration*), a template <{key}> is set, a forced draw is captured from the simulated terminal and compared with the getter value pushed through the public formatter the docs name (percent: within rounding of 100*pos/len clamped; spinner: style.get_tick_str(tick count) / final tick string once finished; missing length renders as the position). The ProgressState handed to a custom key at each draw must agree with the getters, the tracker must be ticked with the bar (in one run out of four also by a steady ticker left running for six intervals) and reset exactly as often as the bar, with the bar's state after the reset. Non-trivial: history of >= 2 calls. Distinct = distinct scenario hash.".into()
     }
     fn assumptions(&self) -> Vec<String> {
         vec![
@@ -321,6 +349,8 @@ impl Check for C11 {
         let mut sc = Scenario::new("C11", "seq", rng.next_u64());
         sc.set("len_known", rng.chance(4, 5) as u64);
         sc.set("len0", boundary_u64(rng));
+        sc.set("two_line", rng.chance(1, 4) as u64);
+        sc.set("ticker_phase", rng.chance(1, 4) as u64);
         sc.set("on_finish", rng.below(5));
         sc.set("final_gap", *rng.pick(&[1, 1_000, 1_000_000, 1_500_000_000, 90_000_000_000, 100_000_000_000_000]));
         let n = rng.range(0, if tier == Tier::Quick { 15 } else { 30 });
@@ -350,6 +380,6 @@ impl Check for C11 {
         exec(sc)
     }
     fn shrink_cfg(&self) -> Vec<(&'static str, u64)> {
-        vec![("len0", 0), ("final_gap", 1)]
+        vec![("len0", 0), ("final_gap", 1), ("two_line", 0), ("ticker_phase", 0)]
     }
 }
